@@ -572,8 +572,8 @@ def check_inram_rebuilt(case):
 def families(tier):
   return [
       core.Family('service', check_service, strategy=service_strategy,
-                  budget={'quick': 1600, 'thorough': 40000},
-                  shards={'quick': 8, 'thorough': 16},
+                  budget={'quick': 2400, 'thorough': 50000},
+                  shards={'quick': 12, 'thorough': 32},
                   required_classes=(
                       'service_ps', 'service_dp', 'ram', 'sqlmem', 'sqlfile',
                       'delete', 'delete_max_id', 'delete_already_given_trial',
@@ -585,8 +585,8 @@ def families(tier):
                       'trial_id_reused_after_given', 'pythia_invoked')),
       core.Family('inram_alive', check_inram_alive,
                   strategy=inram_strategy(False),
-                  budget={'quick': 800, 'thorough': 20000},
-                  shards={'quick': 4, 'thorough': 16},
+                  budget={'quick': 3000, 'thorough': 100000},
+                  shards={'quick': 2, 'thorough': 8},
                   required_classes=(
                       'out_of_order_completion', 'replace_active_trial',
                       'external_completed_trial',
@@ -594,8 +594,8 @@ def families(tier):
                       'update_while_requested_trial')),
       core.Family('inram_rebuilt', check_inram_rebuilt,
                   strategy=inram_strategy(True),
-                  budget={'quick': 800, 'thorough': 20000},
-                  shards={'quick': 4, 'thorough': 16},
+                  budget={'quick': 3000, 'thorough': 100000},
+                  shards={'quick': 2, 'thorough': 8},
                   required_classes=(
                       'out_of_order_completion', 'replace_active_trial',
                       'rebuild_policy', 'lose_state',
